@@ -31,9 +31,10 @@ CORPUS = [
     b'# caf\xe9\nif true { keep; } # \xff\xfe',
     b'\xef\xbb\xbfif true { keep; }',  # a UTF-8 signature is not white space: a lexical error at offset 0
     b'\xef\xbb\xbf',
+    b'redirect "100%"; stop "50% off %s %(x)d"; keep text:\n20%\n.\n;',  # format-string look-alikes, also as the unexpected token
 ]
 EDIT_BYTES = [0x00, 0x22, 0x5C, 0x0A, 0x0D, 0x7B, 0x7D, 0x28, 0x5B, 0x2F, 0x2A, 0x23, 0x3A, 0x2E, 0x80, 0xC3, 0xFF,
-              0x20, 0x61, 0x30, 0x3B, 0x2C, 0x29, 0x5D, 0x09, 0x0B, 0x0C, 0x1C, 0x85, 0xA0]  # + HTAB and octets that only look like white space
+              0x20, 0x61, 0x30, 0x3B, 0x2C, 0x29, 0x5D, 0x09, 0x0B, 0x0C, 0x1C, 0x85, 0xA0, 0x25]  # + HTAB and octets that only look like white space
 
 
 def single_edits(s):
